@@ -26,6 +26,61 @@ pub fn strp(s: &str) -> Result<f32> {
         .map_err(|_| SvgdxError::ParseError(format!("Expected a number: '{s}'")))
 }
 
+/// Parse a list of numbers following SVG's grammar for coordinate lists
+/// (as used in `points` and `transform` values): numbers are separated by
+/// whitespace and/or a comma, but a separator is optional where the start
+/// of the next number is unambiguous - a sign or a second decimal point -
+/// so "10-20" is [10, -20] and "1.5.5" is [1.5, 0.5]. Exponents are allowed.
+pub fn number_list(input: &str) -> Result<Vec<f32>> {
+    let chars: Vec<char> = input.chars().collect();
+    let len = chars.len();
+    let digits_from = |mut i: usize| {
+        while i < len && chars[i].is_ascii_digit() {
+            i += 1;
+        }
+        i
+    };
+    let mut result = Vec::new();
+    let mut i = 0;
+    loop {
+        while i < len && (chars[i].is_ascii_whitespace() || chars[i] == ',') {
+            i += 1;
+        }
+        if i >= len {
+            break;
+        }
+        let start = i;
+        if chars[i] == '+' || chars[i] == '-' {
+            i += 1;
+        }
+        let int_end = digits_from(i);
+        let mut digit_count = int_end - i;
+        i = int_end;
+        if i < len && chars[i] == '.' {
+            let frac_end = digits_from(i + 1);
+            digit_count += frac_end - (i + 1);
+            i = frac_end;
+        }
+        if digit_count == 0 {
+            return Err(SvgdxError::ParseError(format!(
+                "Expected a number in '{input}'"
+            )));
+        }
+        if i < len && (chars[i] == 'e' || chars[i] == 'E') {
+            let mut exp = i + 1;
+            if exp < len && (chars[exp] == '+' || chars[exp] == '-') {
+                exp += 1;
+            }
+            let exp_end = digits_from(exp);
+            if exp_end > exp {
+                i = exp_end;
+            }
+        }
+        result.push(strp(&chars[start..i].iter().collect::<String>())?);
+    }
+    Ok(result)
+}
+
 /// Parse a string such as "32.5mm" into a value (32.5) and unit ("mm")
 pub fn split_unit(s: &str) -> Result<(f32, String)> {
     let mut value = String::new();
